@@ -47,6 +47,8 @@ def gen_cusip(rng):
 
 
 ASCII_VISIBLE = "".join(chr(c) for c in range(33, 127) if chr(c) != "_")
+ANYCHAR = [(0, 0xD7FF), (0xE000, 0x10FFFF)]       # the check character position: any code point at all
+FOREIGN_DIGITS = "".join(chr(base + d) for base in (0x0660, 0x06F0, 0x0966, 0xFF10) for d in range(10))   # decimal digits int() also accepts
 ANY_TRAILER = ASCII_VISIBLE + " \n\r\t"        # what may follow a complete identifier in an over-long one
 
 CONTRACTS = [
@@ -58,8 +60,8 @@ CONTRACTS = [
              props=["C20"]),
     # 1  any length, any visible ASCII: wrong length never validates; right length validates iff the check digit is right
     Contract("ofxtools.utils:validate_cusip",
-             args=[StrArg("cusip", minlen=0, maxlen=11, charset=CUSIP_ALPHA, per_pos={9: ANY_TRAILER, 10: ANY_TRAILER})],
-             ensures=[("iff", "result == spec.secid.is_valid_cusip(cusip)")], gen=lambda rng: (lambda c: [c[0] + rng.choice(["", "", "\n", " ", "0", "\r\n"])])(gen_cusip(rng)),
+             args=[StrArg("cusip", minlen=0, maxlen=11, charset=CUSIP_ALPHA, per_pos={8: ANYCHAR, 9: ANY_TRAILER, 10: ANY_TRAILER})],
+             ensures=[("iff", "result == spec.secid.is_valid_cusip(cusip)")], gen=lambda rng: (lambda c: [(c[0] if rng.random() < 0.7 else c[0][:8] + rng.choice(FOREIGN_DIGITS + "xX-\u00b2")) + rng.choice(["", "", "\n", " ", "0", "\r\n"])])(gen_cusip(rng)),
              props=["C20"]),
     # 2
     Contract("ofxtools.utils:sedol_checksum",
@@ -89,8 +91,8 @@ CONTRACTS = [
              props=["C20"], kind="helper"),
     # 6 wrong length or unknown prefix never validates; otherwise iff check digit right
     Contract("ofxtools.utils:validate_isin",
-             args=[StrArg("isin", minlen=10, maxlen=13, charset=ALNUM, per_pos={12: ANY_TRAILER})],
-             ensures=[("iff", "result == spec.secid.is_valid_isin(isin, spec.secid.ALLKEYS)")], gen=lambda rng: (lambda c: [c[0] + rng.choice(["", "", "\n", " ", "0", "\t"])])(gen_isin(rng)),
+             args=[StrArg("isin", minlen=10, maxlen=13, charset=ALNUM, per_pos={11: ANYCHAR, 12: ANY_TRAILER})],
+             ensures=[("iff", "result == spec.secid.is_valid_isin(isin, spec.secid.ALLKEYS)")], gen=lambda rng: (lambda c: [(c[0] if rng.random() < 0.7 else c[0][:11] + rng.choice(FOREIGN_DIGITS + "xX-\u00b2")) + rng.choice(["", "", "\n", " ", "0", "\t"])])(gen_isin(rng)),
              props=["C20"], max_paths=400),
     # 7 valid CUSIP + two-letter agency -> valid ISIN embedding the CUSIP
     Contract("ofxtools.utils:cusip2isin",
